@@ -18,6 +18,7 @@ RULE = ("type pairs: ALL pairs of type expressions over two names with <=3 wrapp
 ASSUMPTIONS = [
     "Ty.inner/Ty.name totalise Python attribute errors; exceptions of the real predicates are compared by the correspondence on all small pairs",
 ]
+GENERATED_FILES = ["PyGqlModel/Generated/Differ.lean"]
 TRUSTED = ["py2lean.py mini-translator (Python ast -> Lean step functionals) for _is_safe_input_type_change/_is_safe_output_type_change"]
 
 DIFFER = REPO / "src/py_gql/schema/differ/__init__.py"
